@@ -78,13 +78,22 @@ class Gen:
         if kind == "crztx": return "crztx", ["a", "t"]
         if kind == "fixed": return "fixed", []
         if kind == "emu":
-            k = r.randint(2, 6); axes = []; kinds = []
-            ntr = 0
-            for _ in range(k):
-                if r.random() < 0.6 or ntr >= 3:
-                    axes.append(self.axis(general=r.random() < 0.4) + [Fr(0)] * 3); kinds.append("a")
+            k = r.randint(2, 6)
+            # at most three rotations and three translations, each set mutually orthogonal (non-singular H);
+            # the triples are the columns of an exactly orthonormal rational rotation
+            Rr = self.rot() if r.random() < 0.5 else [[Fr(1), Fr(0), Fr(0)], [Fr(0), Fr(1), Fr(0)], [Fr(0), Fr(0), Fr(1)]]
+            Rt = self.rot() if r.random() < 0.5 else [[Fr(1), Fr(0), Fr(0)], [Fr(0), Fr(1), Fr(0)], [Fr(0), Fr(0), Fr(1)]]
+            rots = [[Rr[0][c], Rr[1][c], Rr[2][c]] for c in range(3)]; r.shuffle(rots)
+            trs = [[Rt[0][c], Rt[1][c], Rt[2][c]] for c in range(3)]; r.shuffle(trs)
+            nrot = r.randint(max(0, k - 3), min(3, k)); ntr = k - nrot
+            slots = ["a"] * nrot + ["t"] * ntr; r.shuffle(slots)
+            axes = []; kinds = []; seen_rot = 0
+            for sl in slots:
+                if sl == "a":
+                    axes.append(rots.pop() + [Fr(0)] * 3); seen_rot += 1
+                    kinds.append("e" if (nrot == 3 and seen_rot == 2) else "a")
                 else:
-                    axes.append([Fr(0)] * 3 + self.axis(general=r.random() < 0.4)); kinds.append("t"); ntr += 1
+                    axes.append([Fr(0)] * 3 + trs.pop()); kinds.append("t")
             return "emu %d " % k + " ".join(f6(a) for a in axes), kinds
         raise ValueError(kind)
     # ---- a model
